@@ -880,116 +880,134 @@ impl<'a, R: 'a + Read> Read for CompressionLayerFailSafeReader<'a, R> {
                 mut uncompressed_read,
                 mut inner,
             } => {
-                if uncompressed_read > UNCOMPRESSED_DATA_SIZE {
-                    return Err(Error::WrongReaderState(
-                        "[Compress FailSafe Layer] Too much data read".to_string(),
-                    )
-                    .into());
-                }
+                let ret = loop {
+                    if uncompressed_read > UNCOMPRESSED_DATA_SIZE {
+                        return Err(Error::WrongReaderState(
+                            "[Compress FailSafe Layer] Too much data read".to_string(),
+                        )
+                        .into());
+                    }
 
-                if read_offset == cache_filled_offset
-                    && cache_filled_offset == FAIL_SAFE_BUFFER_SIZE
-                {
-                    // Cache is full and there is no more data to read from
-                    // -> cache must be reset
-                    cache.fill(0);
-                    cache_filled_offset = 0;
-                    read_offset = 0;
-                }
+                    if read_offset == cache_filled_offset
+                        && cache_filled_offset == FAIL_SAFE_BUFFER_SIZE
+                    {
+                        // Cache is full and there is no more data to read from
+                        // -> cache must be reset
+                        cache.fill(0);
+                        cache_filled_offset = 0;
+                        read_offset = 0;
+                    }
 
-                // Try to fill the cache from the inner source
-                match inner.read(&mut cache[cache_filled_offset..]) {
-                    Ok(read) => {
-                        if read == 0 && read_offset == cache_filled_offset {
-                            // No more data from inner and the cache has been fully read
-                            // -> return either an error or Ok(0)
-                            if uncompressed_read > 0 {
-                                // Inside a stream and no more data available
-                                return Err(io::Error::new(
-                                    io::ErrorKind::UnexpectedEof,
-                                    "No more data from the inner layer",
-                                ));
+                    // Try to fill the cache from the inner source
+                    match inner.read(&mut cache[cache_filled_offset..]) {
+                        Ok(read) => {
+                            if read == 0 && read_offset == cache_filled_offset {
+                                // No more data from inner and the cache has been fully read
+                                // -> return either an error or Ok(0)
+                                if uncompressed_read > 0 {
+                                    // Inside a stream and no more data available
+                                    return Err(io::Error::new(
+                                        io::ErrorKind::UnexpectedEof,
+                                        "No more data from the inner layer",
+                                    ));
+                                }
+                                // No more data available but not in a stream
+                                return Ok(0);
                             }
-                            // No more data available but not in a stream
-                            return Ok(0);
+                            cache_filled_offset += read;
                         }
-                        cache_filled_offset += read;
-                    }
-                    error => {
-                        if read_offset == cache_filled_offset {
-                            // No more data in the cache
-                            return error;
+                        error => {
+                            if read_offset == cache_filled_offset {
+                                // No more data in the cache
+                                return error;
+                            }
+                            // There is still data in the cache to read
+                            // Will fail and return the error on the next .read()
                         }
-                        // There is still data in the cache to read
-                        // Will fail and return the error on the next .read()
                     }
-                }
 
-                // Number of byte available in the source
-                let mut available_in = cache_filled_offset - read_offset;
-                // IN: Offset in the source
-                // OUT: Offset in the source after the decompression pass
-                let mut input_offset = 0;
-                // Available spaces in the output
-                let mut available_out = std::cmp::min(
-                    buf.len(),
-                    (UNCOMPRESSED_DATA_SIZE - uncompressed_read) as usize,
-                );
-                // IN: Offset in the output
-                // OUT: number of bytes written in the output
-                let mut output_offset = 0;
-                // OUT: total number of byte written for the current stream (cumulative)
-                let mut written = 0;
+                    // Number of byte available in the source
+                    let mut available_in = cache_filled_offset - read_offset;
+                    // IN: Offset in the source
+                    // OUT: Offset in the source after the decompression pass
+                    let mut input_offset = 0;
+                    // Available spaces in the output
+                    let mut available_out = std::cmp::min(
+                        buf.len(),
+                        (UNCOMPRESSED_DATA_SIZE - uncompressed_read) as usize,
+                    );
+                    // IN: Offset in the output
+                    // OUT: number of bytes written in the output
+                    let mut output_offset = 0;
+                    // OUT: total number of byte written for the current stream (cumulative)
+                    let mut written = 0;
 
-                let ret = match brotli::BrotliDecompressStream(
-                    &mut available_in,
-                    &mut input_offset,
-                    &cache[read_offset..cache_filled_offset],
-                    &mut available_out,
-                    &mut output_offset,
-                    buf,
-                    &mut written,
-                    &mut state,
-                ) {
-                    brotli::BrotliResult::ResultSuccess => {
-                        // End of stream reached
+                    break match brotli::BrotliDecompressStream(
+                        &mut available_in,
+                        &mut input_offset,
+                        &cache[read_offset..cache_filled_offset],
+                        &mut available_out,
+                        &mut output_offset,
+                        buf,
+                        &mut written,
+                        &mut state,
+                    ) {
+                        brotli::BrotliResult::ResultSuccess => {
+                            // End of stream reached
 
-                        // Rewind the cache to the actual start of the new block
-                        // input_offset \in [0; cache_filled_offset - read_offset[
-                        read_offset += input_offset;
+                            // Rewind the cache to the actual start of the new block
+                            // input_offset \in [0; cache_filled_offset - read_offset[
+                            read_offset += input_offset;
 
-                        // Reset others
-                        state = Box::new(BrotliState::new(
-                            StandardAlloc::default(),
-                            StandardAlloc::default(),
-                            StandardAlloc::default(),
-                        ));
-                        uncompressed_read = 0;
+                            // Reset others
+                            state = Box::new(BrotliState::new(
+                                StandardAlloc::default(),
+                                StandardAlloc::default(),
+                                StandardAlloc::default(),
+                            ));
+                            uncompressed_read = 0;
 
-                        Ok(output_offset)
-                    }
-                    brotli::BrotliResult::NeedsMoreInput => {
-                        // Bytes may have been read and produced
-                        read_offset += input_offset;
-                        uncompressed_read += u32::try_from(output_offset).map_err(|_| {
-                            io::Error::new(io::ErrorKind::InvalidData, "Integer conversion failed")
-                        })?;
+                            if output_offset == 0 && !buf.is_empty() {
+                                // Nothing produced by the end of this stream: go on
+                                // with the next one, `Ok(0)` would mean end of data
+                                continue;
+                            }
+                            Ok(output_offset)
+                        }
+                        brotli::BrotliResult::NeedsMoreInput => {
+                            // Bytes may have been read and produced
+                            read_offset += input_offset;
+                            uncompressed_read += u32::try_from(output_offset).map_err(|_| {
+                                io::Error::new(
+                                    io::ErrorKind::InvalidData,
+                                    "Integer conversion failed",
+                                )
+                            })?;
 
-                        Ok(output_offset)
-                    }
-                    brotli::BrotliResult::NeedsMoreOutput => {
-                        // Bytes may have been read and produced
-                        read_offset += input_offset;
-                        uncompressed_read += u32::try_from(output_offset).map_err(|_| {
-                            io::Error::new(io::ErrorKind::InvalidData, "Integer conversion failed")
-                        })?;
+                            if output_offset == 0 && !buf.is_empty() {
+                                // Not enough input to produce a byte yet: fetch more,
+                                // `Ok(0)` would mean end of data
+                                continue;
+                            }
+                            Ok(output_offset)
+                        }
+                        brotli::BrotliResult::NeedsMoreOutput => {
+                            // Bytes may have been read and produced
+                            read_offset += input_offset;
+                            uncompressed_read += u32::try_from(output_offset).map_err(|_| {
+                                io::Error::new(
+                                    io::ErrorKind::InvalidData,
+                                    "Integer conversion failed",
+                                )
+                            })?;
 
-                        Ok(output_offset)
-                    }
-                    brotli::BrotliResult::ResultFailure => Err(io::Error::new(
-                        io::ErrorKind::InvalidData,
-                        "Invalid Data while decompressing",
-                    )),
+                            Ok(output_offset)
+                        }
+                        brotli::BrotliResult::ResultFailure => Err(io::Error::new(
+                            io::ErrorKind::InvalidData,
+                            "Invalid Data while decompressing",
+                        )),
+                    };
                 };
 
                 self.state = CompressionLayerFailSafeReaderState::InData {
